@@ -85,7 +85,7 @@ type gen struct {
 var words = []string{
 	"Alpha", "Bravo", "Charlie", "Delta", "Echo", "Fox", "Golf", "Hotel", "India", "Juliet", "Kilo", "Lima", "Mike", "Nova", "Oscar", "Papa",
 	"Quebec", "Romeo", "Sierra", "Tango", "Ultra", "Victor", "Whisky", "Xray", "Yankee", "Zulu", "Shape", "Circle", "Square", "Item", "Order",
-	"Client", "Group", "Event", "Token", "Record", "Entry", "Label", "Point", "Route", "Score", "Phase", "Grade", "Color", "Level", "State",
+	"Client", "Group", "Event", "Token", "Ledger", "Entry", "Label", "Point", "Route", "Score", "Phase", "Grade", "Color", "Level", "State",
 }
 
 var fieldWords = []string{
@@ -132,6 +132,9 @@ func (g *gen) freshName(pkg *Pkg, label string, exported bool) string {
 			name = strings.ToLower(name[:1]) + name[1:]
 		}
 		if used[name] || goKeyword(name) || strings.Contains(strings.ToLower(name), "date") {
+			continue
+		}
+		if g.usedAnywhere(name, pkg) && g.o.gated("same_name_two_packages") {
 			continue
 		}
 		used[name] = true
@@ -316,10 +319,13 @@ func (g *gen) drawType(pkg *Pkg, label string, c typeCtx) (*TypeRef, *tinfo) {
 		ti := cands[rapid.IntRange(0, len(cands)-1).Draw(t, label+"Ref")]
 		return g.refTo(pkg, ti), ti
 	case "slice":
-		if rapid.IntRange(0, 9).Draw(t, label+"Bytes") == 0 && !g.o.gated("byte_slice") {
+		if rapid.IntRange(0, 9).Draw(t, label+"Bytes") == 0 && !g.o.gated("byte_slice_in_json") {
 			return Slice(Basic("byte")), nil
 		}
 		e, ti := g.drawType(pkg, label+"E", typeCtx{depth: c.depth + 1, inAnonCon: true, inArray: c.inArray})
+		if byteLike(e, ti) && g.o.gated("byte_slice_in_json") {
+			e, ti = Basic("int16"), nil
+		}
 		return Slice(e), ti
 	case "array":
 		n := []int{1, 2, 3, 5, 2, 3}[rapid.IntRange(0, 5).Draw(t, label+"Len")]
@@ -432,6 +438,9 @@ func (g *gen) drawTag(name string, label string) string {
 	case 8:
 		return `gomacro-opaque:"typescript"`
 	case 9:
+		if g.o.gated("json_string_option") {
+			return fmt.Sprintf(`json:"%s"`, snake(name))
+		}
 		return fmt.Sprintf(`json:"%s,string"`, snake(name))
 	case 10:
 		return fmt.Sprintf(`json:"%s-x"`, snake(name))
@@ -463,6 +472,7 @@ func (g *gen) addStruct(pkg *Pkg, file *File, exported bool) *tinfo {
 		n = 1
 	}
 	used := map[string]bool{}
+	usedKeys := map[string]bool{}
 	for i := 0; i < n; i++ {
 		f := &Field{}
 		if g.o.Embedded && rapid.IntRange(0, 11).Draw(t, "embed") == 0 {
@@ -474,13 +484,14 @@ func (g *gen) addStruct(pkg *Pkg, file *File, exported bool) *tinfo {
 				// avoid promoted-name conflicts (C09 handles them separately)
 				conflict := false
 				for _, ef := range e.d.Fields {
-					if used[ef.Name] || ef.Embedded || ef.Name == e.d.Name {
+					if used[ef.Name] || ef.Embedded || ef.Name == e.d.Name || usedKeys[JSONKey(ef)] {
 						conflict = true
 					}
 				}
 				if !conflict {
 					for _, ef := range e.d.Fields {
 						used[ef.Name] = true
+						usedKeys[JSONKey(ef)] = true
 					}
 					used[e.d.Name] = true
 					f.Embedded, f.Name, f.Type = true, e.d.Name, g.refTo(pkg, e)
@@ -507,6 +518,13 @@ func (g *gen) addStruct(pkg *Pkg, file *File, exported bool) *tinfo {
 		}
 		if f.Name[0] >= 'A' && f.Name[0] <= 'Z' {
 			f.Tag = g.drawTag(f.Name, "tag")
+			// two fields of one struct never share a JSON key (encoding/json would drop both)
+			key := JSONKey(f)
+			if usedKeys[key] {
+				f.Tag = ""
+				key = f.Name
+			}
+			usedKeys[key] = true
 		}
 		d.Fields = append(d.Fields, f)
 	}
@@ -532,6 +550,9 @@ func (g *gen) addNamed(pkg *Pkg, file *File) *tinfo {
 		return g.newDecl(pkg, file, d, &tinfo{cat: "id", base: "int64", keyOK: true})
 	case 4, 5: // named slice
 		e, eti := g.drawType(pkg, "nsElem", typeCtx{depth: 1, namedElem: true})
+		if byteLike(e, eti) && g.o.gated("byte_slice_in_json") {
+			e, eti = Basic("int16"), nil
+		}
 		d := &Decl{Kind: KNamed, Name: g.freshName(pkg, "nsName", exported), Type: Slice(e)}
 		ti := &tinfo{cat: "slice"}
 		if eti != nil {
@@ -757,4 +778,65 @@ func (g *gen) fullMethodSet(pkg *Pkg, d *Decl) []string {
 		}
 	}
 	return out
+}
+
+// JSONKey is the key encoding/json uses for a (non-embedded) field: the name part of the json tag, else the Go name.
+// "-" (tag exactly "-") and unexported fields are invisible; they get a key that cannot collide.
+func JSONKey(f *Field) string {
+	tag := structTagGet(f.Tag, "json")
+	if tag == "-" || !(f.Name[0] >= 'A' && f.Name[0] <= 'Z') {
+		return "\x00" + f.Name
+	}
+	name, _, _ := strings.Cut(tag, ",")
+	if name == "" {
+		return f.Name
+	}
+	return name
+}
+
+func structTagGet(tag, key string) string {
+	// same conventions as reflect.StructTag.Get for the tags we write
+	for tag != "" {
+		tag = strings.TrimLeft(tag, " ")
+		i := strings.Index(tag, ":\"")
+		if i < 0 {
+			return ""
+		}
+		name := tag[:i]
+		rest := tag[i+2:]
+		j := strings.Index(rest, "\"")
+		if j < 0 {
+			return ""
+		}
+		if name == key {
+			return rest[:j]
+		}
+		tag = rest[j+1:]
+	}
+	return ""
+}
+
+// byteLike: an element type of kind uint8 (named or not): encoding/json writes slices of it as base64 strings
+func byteLike(e *TypeRef, ti *tinfo) bool {
+	if e.K == TBasic && (e.Name == "uint8" || e.Name == "byte") {
+		return true
+	}
+	return e.K == TRef && ti != nil && (ti.cat == "basic" || ti.cat == "enum") && ti.base == "uint8"
+}
+
+func (g *gen) usedAnywhere(name string, except *Pkg) bool {
+	if name == "Point" && g.o.StdTypes {
+		return true // image.Point
+	}
+	for path, m := range g.names {
+		if path == except.Path {
+			continue
+		}
+		for n := range m {
+			if strings.EqualFold(n, name) {
+				return true
+			}
+		}
+	}
+	return false
 }
